@@ -705,6 +705,28 @@ def lin_eval(body, op, atoms, depth=12):
     return None
 
 
+def facade_agreement_rule(ctx, prog):
+    """FilesystemFacade / BindingsFacade have one forwarding method per operation with a Real arm and a Mock arm: both arms of
+    method m must call m (a copy-paste slip that makes the Real arm of the *period* reader open the *quota* file passes every
+    mock-based test and reports every finite cgroup-v1 limit as exactly 1.0 processors)."""
+    n = 0
+    for b in prog.bodies:
+        if "::tests" in b.key or b.is_closure or not ("Facade::" in b.key or "Facade as " in b.key) or "pal::linux" not in b.key:
+            continue
+        m = b.name
+        fw = [(bb, t) for bb, t in b.calls() if not b.blocks[bb].cleanup and (t["callee"].get("trait") or "").split("::")[-1] in
+              ("Filesystem", "Bindings") or (not b.blocks[bb].cleanup and t["callee"].get("method") and ("MockFilesystem" in callee_key(t["callee"]) or "MockBindings" in callee_key(t["callee"])
+               or "BuildTargetFilesystem" in callee_key(t["callee"]) or "BuildTargetBindings" in callee_key(t["callee"])))]
+        if not fw:
+            continue
+        n += 1
+        other = sorted({t["callee"].get("method") for _bb, t in fw if t["callee"].get("method") != m})
+        ctx.ob("R5.quota", f"facade.{m}.arms-forward-to-the-same-operation", not other, b.loc(),
+               f"{len(fw)} forwarding call(s); operations other than `{m}`: {other or 'none'}")
+    if n == 0:
+        ctx.missing("R5.quota", "forwarding methods of the pal::linux facades")
+
+
 def cgroup_path_rule(ctx, prog):
     """`/proc/self/cgroup` lines are `hierarchy:controllers:path` and the PATH may itself contain colons (containerd with the
     systemd cgroup driver: `...slice:cri-containerd:<id>`): the path is everything after the second colon. A parser that cuts the
@@ -1145,6 +1167,7 @@ def run(ctx):
     prog = ctx.prog("many_cpus_impl", "cpulist")
     platform_rules(ctx, prog)
     cgroup_path_rule(ctx, prog)
+    facade_agreement_rule(ctx, prog)
     codec_rules(ctx, prog)
     mask_rules(ctx, prog)
     enumeration_rules(ctx, prog)
